@@ -78,10 +78,12 @@ def mainCtx? : Sexp → Option Ctx
 inductive Op where
   | run (ctx : Nat) (s : Stmt)
   | race (ctx : Nat) (m : Name) (k : Nat)
+  | delctx (ctx : Nat)                       -- GlobalContextMgr.delete(name of ctx): the registry entry goes away
 
 def op? : Sexp → Option Op
   | .list [.atom "run", c, s] => do let cc ← c.nat?; let ss ← stmt? 32 s; pure (.run cc ss)
   | .list [.atom "race", c, m, k] => do let cc ← c.nat?; let mm ← strs? m; let kk ← k.nat?; pure (.race cc mm kk)
+  | .list [.atom "delctx", c] => c.nat? >>= fun cc => some (.delctx cc)
   | _ => none
 
 /-! ## rendering -/
@@ -108,8 +110,11 @@ def insertSorted (x : String) : List String → List String
 
 def sortStrs (xs : List String) : List String := xs.foldl (fun acc x => insertSorted x acc) []
 
+/-- dunder names (`__name__`, `__all__`, the harness's `__gcN__` probes) are not part of the compared tables -/
+def isDunder (k : String) : Bool := k.startsWith "__" && k.endsWith "__"
+
 def showTable (cs : List Ctx) (fnames : List String) (t : Table) : String :=
-  ",".intercalate (sortStrs (t.map (fun kv => s!"{kv.1}={showVal cs fnames kv.2}")))
+  ",".intercalate (sortStrs ((t.filter (fun kv => !isDunder kv.1)).map (fun kv => s!"{kv.1}={showVal cs fnames kv.2}")))
 
 /-- main contexts and contexts that carry a module object (a module whose load failed is garbage) -/
 def showHeap (nmain : Nat) (h : Heap) (fnames : List String) : String :=
@@ -169,6 +174,8 @@ def runModel (W : World) (fnames : List String) : Heap → List Ptrs → List Op
   | h, ps, .race c m k :: rest, acc =>
     let (h', ids) := raceImports W h c m k
     runModel W fnames h' ps rest (s!"race:{(dedup ids).length}" :: acc)
+  | h, ps, .delctx c :: rest, acc =>
+    runModel W fnames { h with reg := regDel h.reg (selfCtx h c).name } ps rest ("deleted" :: acc)
 
 def runSpec (W : World) (fnames : List String) (nmain : Nat) : Heap → List Op → List String → String
   | h, [], acc => " ".intercalate acc.reverse ++ " | " ++ showHeap nmain h fnames
@@ -177,6 +184,8 @@ def runSpec (W : World) (fnames : List String) (nmain : Nat) : Heap → List Op 
     if isFuel r.out then " ".intercalate ("diverges" :: acc).reverse
     else runSpec W fnames nmain r.s.h rest (showOut r.out :: acc)
   | h, .race _ _ _ :: rest, acc => runSpec W fnames nmain h rest ("race:1" :: acc)
+  | h, .delctx c :: rest, acc =>
+    runSpec W fnames nmain { h with reg := regDel h.reg (selfCtx h c).name } rest ("deleted" :: acc)
 
 def initHeap (mains : List Ctx) : Heap :=
   { ctxs := mains, tabs := fun _ => [], reg := (List.range mains.length).zip mains |>.map (fun (i, c) => (c.name, i)) }
